@@ -63,6 +63,32 @@ func drawInput(rt *rapid.T, label string, maxCols int, minRows int) []inputCol {
 	return out
 }
 
+// makeHuge replaces the first column by a String column whose first row is an incompressible
+// value of more than a mebibyte (size thresholds in the write path).
+func makeHuge(rt *rapid.T, cols []inputCol) {
+	k := gen.ByName["String|X|String"]
+	n := max(1, len(cols[0].rows))
+	rows := gen.DrawRows(rt, k, n)
+	x := rapid.Uint64().Draw(rt, "huge-seed") | 1
+	v := make([]byte, 1<<20+rapid.IntRange(1, 300_000).Draw(rt, "huge-extra"))
+	for i := range v {
+		x ^= x << 13
+		x ^= x >> 7
+		x ^= x << 17
+		v[i] = byte(x >> 32)
+	}
+	rows[0] = v
+	for i := range cols {
+		if len(cols[i].rows) != n { // the block had zero rows: give every column one
+			cols[i].rows = gen.DrawRows(rt, cols[i].kind, n)
+			cols[i].col = cols[i].kind.New()
+			cols[i].col.AppendBulk(cols[i].rows)
+		}
+	}
+	cols[0] = inputCol{name: cols[0].name, kind: k, rows: rows, col: k.New()}
+	cols[0].col.AppendBulk(rows)
+}
+
 func protoInput(cols []inputCol) proto.Input {
 	var in proto.Input
 	for _, c := range cols {
@@ -118,8 +144,12 @@ func runC02(rt *rapid.T, st *stats.Collector) {
 		}
 	}
 	var ext, input []inputCol
+	huge := rapid.IntRange(0, 39).Draw(rt, "huge-block")
 	if rapid.Bool().Draw(rt, "external-data") {
 		ext = drawInput(rt, "ext", 2, 0)
+		if huge == 1 {
+			makeHuge(rt, ext)
+		}
 		q.ExternalData = protoInput(ext)
 		q.ExternalTable = rapid.SampledFrom([]string{"", "_ext", "tmp table"}).Draw(rt, "ext-table")
 	}
@@ -129,6 +159,9 @@ func runC02(rt *rapid.T, st *stats.Collector) {
 	streamed := false
 	if rapid.Bool().Draw(rt, "input") {
 		input = drawInput(rt, "in", 3, 1)
+		if huge == 0 {
+			makeHuge(rt, input)
+		}
 		q.Input = protoInput(input)
 		if streamed = rapid.IntRange(0, 2).Draw(rt, "streamed-input") == 0; streamed {
 			// OnInput refills the same column objects: zero or more rounds returning nil, then
@@ -354,6 +387,9 @@ func runC02(rt *rapid.T, st *stats.Collector) {
 	st.Label(fmt.Sprintf("N:%d", N))
 	if streamed {
 		st.Label(fmt.Sprintf("streamed-input-blocks:%d", len(rounds)))
+	}
+	if (huge == 0 && len(input) > 0) || (huge == 1 && len(ext) > 0) {
+		st.Label("block-over-1MiB")
 	}
 }
 
